@@ -91,12 +91,23 @@ CHECKS.update({
                           "ddmin minimisation"),
 })
 
+CHECKS.update({
+    "C16": dict(level="exploration",
+                text="Boundary enumeration driven through the simulated system: JSON texts of size L-2..L+2 (and far below/"
+                     "above) delivered to every enforcement point - API inputs, callback output, Pass/Task/Map/Parallel "
+                     "state output, task reply - plus definition size, name length/characters and the history limit. Weak "
+                     "fit for the technique (the comparison has no schedule in it); the simulator is what makes the "
+                     "enforcement points reachable at all.",
+                ref="5/C16", note=NOTE_BASE + "; ASCII payloads only.",
+                technique="deterministic simulation used to reach the enforcement points; exhaustive +-2 size windows"),
+})
+
 NA = [
     ("C12", "pure functions of (document, path, result): no schedule, clock, fault or interleaving to simulate"),
     ("C13", "pure function of (template, input, context): no schedule, clock, fault or interleaving to simulate"),
     ("C14", "pure function of (rule tree, input): no schedule, clock, fault or interleaving to simulate"),
 ]
-NOT_YET = {'C11': 'check not built yet (in progress)', 'C15': 'check not built yet (in progress)', 'C16': 'check not built yet (in progress)', 'C17': 'check not built yet (in progress)', 'C18': 'check not built yet (in progress)', 'C19': 'check not built yet (in progress)', 'C20': 'check not built yet (in progress)'}
+NOT_YET = {'C11': 'check not built yet (in progress)', 'C15': 'check not built yet (in progress)', 'C17': 'check not built yet (in progress)', 'C18': 'check not built yet (in progress)', 'C19': 'check not built yet (in progress)', 'C20': 'check not built yet (in progress)'}
 
 FIX_COMMITS = []
 
